@@ -73,8 +73,7 @@ Print Assumptions C07_update_addition_blocks.
     any number of deleted leaves (cached or not) such that no inner node of the forest loses all its
     leaves (no two sibling leaves / no whole subtree or tree deleted together).  Surviving sibling
     subtrees - with the cached leaves and proof positions inside them - may move up several rows
-    (Proofs/ProofUpdateDel.v).  Blocks that delete whole subtrees: decided by computation below and
-    by the correspondence run; proof open. *)
+    (Proofs/ProofUpdateDel.v).  The general case follows below. *)
 From Utreexo Require Import Proofs.AbstractModels Proofs.RefTheory Proofs.StumpAdd Proofs.ProofUpdateDel.
 
 Theorem C07_update_regular_deletion_blocks :
@@ -98,7 +97,60 @@ Theorem C07_update_regular_deletion_blocks :
 Proof. exact @proof_update_regular_deletions. Qed.
 Print Assumptions C07_update_regular_deletion_blocks.
 
+(** ** EVERY valid block (Proofs/ProofUpdateDel2.v): the regularity hypothesis removed - sibling leaves,
+    whole subtrees and whole trees may be deleted together ([deTwin] is specified as the roots of the
+    maximal fully deleted subtrees).  This is the full statement of C07 for the mirror of Proof.Update:
+    distinct live deletions, fresh additions, any cached set, any remember subset (ascending indexes). *)
+From Utreexo Require Import Proofs.ProofUpdateDel2.
+
+Theorem C07_update_every_block :
+  forall (H : Type) (HO : ops H), ops_ok HO ->
+  (forall a b, NZ HO (op_hash2 HO a b)) ->
+  forall (s : slots H) (hs adds C : list H) (rem : list N),
+  (forall h, In (Some h) s -> NZ HO h) ->
+  N.of_nat (length s + length adds) <= 2 ^ 63 ->
+  NoDup (live s) -> NoDup hs ->
+  NoDup (live (kill HO hs s ++ map Some adds)) ->
+  NoDup C -> StronglySorted N.lt rem ->
+  (forall x, In x (layout HO (kill HO hs s ++ map Some adds)) -> nleaf x = false -> ~ In (nhash x) (pick adds rem)) ->
+  forall hC tC pC bt pfd,
+    exp_cached HO (mk_ctx HO s) C = Some (hC, tC, pC) ->
+    exp_prove HO (mk_ctx HO s) hs = Some (bt, pfd) ->
+    proof_update HO tC pC hC adds bt rem (ud_of_spec (spec_update_data HO s hs adds))
+    = exp_cached HO (mk_ctx HO (apply_block HO s hs adds)) (cached_after HO C hs (pick adds rem)) /\
+    exp_cached HO (mk_ctx HO (apply_block HO s hs adds)) (cached_after HO C hs (pick adds rem)) <> None.
+Proof. exact @proof_update_every_block. Qed.
+Print Assumptions C07_update_every_block.
+
 (** the full statement (blocks with deletions), decided by computation on every state of 4 slots *)
 Theorem C07_update_all_blocks_4_slots : pu_failures 4 4 = [].
 Proof. exact pu_g0_exhaustive_4. Qed.
 Print Assumptions C07_update_all_blocks_4_slots.
+
+(** ** The whole property, for a whole light client over whole histories (Proofs/LightClient.v):
+    the client = mirror of Stump.Update + mirror of Proof.Update, driven by block data alone; after
+    EVERY valid history from the empty accumulator its stump is the stump of the reference forest,
+    it holds exactly "previous leaves minus deleted plus remembered additions", paired with their true
+    positions and the canonical proof hashes, and the stump verifier accepts that proof. *)
+From Utreexo Require Import Spec.Term Proofs.StumpUpdate Proofs.LightClient.
+From Coq Require Import Permutation.
+
+Theorem C07_light_client_every_history :
+  forall (H : Type) (HO : ops H), ops_ok HO ->
+  (forall a b, NZ HO (op_hash2 HO a b)) ->
+  forall filler : H, NZ HO filler ->
+  forall bs : list (cblock H),
+    N.of_nat (ctotal_adds H bs) <= 2 ^ 63 -> chist_ok H HO [] [] bs ->
+    exists sF CF st hC tC pC,
+      run_client H HO filler [] [] (mkStump [] 0, ([], [], [])) bs = Some (sF, CF, (st, (hC, tC, pC))) /\
+      st = stump_of H HO sF /\
+      exp_cached HO (mk_ctx HO sF) CF = Some (hC, tC, pC) /\
+      exp_prove HO (mk_ctx HO sF) hC = Some (tC, pC) /\ Permutation hC CF /\
+      exists idx, Verify HO true st hC tC pC = Ok idx.
+Proof. exact light_client_from_genesis. Qed.
+Print Assumptions C07_light_client_every_history.
+
+(** non-vacuity: a concrete three-block history meets every hypothesis *)
+Theorem C07_light_client_nonvacuous : chist_ok term term_ops [] [] lc_hist.
+Proof. exact lc_hist_ok. Qed.
+Print Assumptions C07_light_client_nonvacuous.
